@@ -52,6 +52,10 @@ func init() {
 		"math/rand.Uint32": inFreshScalar,
 		"time.Now":         inTimeNow,
 		"time.Since":       inTimeSince,
+		"time.Until":       inTimeUntil,
+		"(time.Time).After": inTimeAfter,
+		"(time.Time).Before": inTimeBefore,
+		"(time.Time).Sub":   inTimeSub,
 		"(time.Time).UnixNano": inFreshScalar,
 		"(time.Time).Add":  inTimeAdd,
 		"(time.Time).IsZero": inTimeIsZero,
@@ -802,7 +806,10 @@ func inTimeNow(e *Engine, st *State, fn *ssa.Function, args []Value, site ssa.In
 	tm := e.tm
 	now := tm.FreshVar("now", 64)
 	if prev, ok := st.ghost["vp.clock"]; ok {
+		// monotone clock; environment assumption: less than one second passes between two
+		// consecutive clock readings on a path
 		st.assume(tm.Ule(prev.(*Term), now))
+		st.assume(tm.Ule(now, tm.Add(prev.(*Term), e.c64(1000000000))))
 	}
 	st.assume(tm.Ult(now, e.c64(1<<62)))
 	st.assume(tm.Ult(e.c64(0), now))
@@ -825,6 +832,42 @@ func inTimeIsZero(e *Engine, st *State, fn *ssa.Function, args []Value, site ssa
 		return one(st, e.tm.Eq(base, e.c64(0)))
 	}
 	return one(st, e.tm.True)
+}
+
+func inTimeUntil(e *Engine, st *State, fn *ssa.Function, args []Value, site ssa.Instruction) []Outcome {
+	t, ok := args[0].(*OpaqueV).data.(*Term)
+	if !ok {
+		return one(st, e.tm.FreshVar("until", 64))
+	}
+	now := inTimeNow(e, st, fn, nil, site)[0].ret.(*OpaqueV).data.(*Term)
+	return one(st, e.tm.Sub(t, now))
+}
+
+func timeTerms(args []Value) (*Term, *Term, bool) {
+	a, ok1 := args[0].(*OpaqueV).data.(*Term)
+	b, ok2 := args[1].(*OpaqueV).data.(*Term)
+	return a, b, ok1 && ok2
+}
+
+func inTimeAfter(e *Engine, st *State, fn *ssa.Function, args []Value, site ssa.Instruction) []Outcome {
+	if a, b, ok := timeTerms(args); ok {
+		return one(st, e.tm.Ult(b, a))
+	}
+	return one(st, e.tm.FreshVar("after", 0))
+}
+
+func inTimeBefore(e *Engine, st *State, fn *ssa.Function, args []Value, site ssa.Instruction) []Outcome {
+	if a, b, ok := timeTerms(args); ok {
+		return one(st, e.tm.Ult(a, b))
+	}
+	return one(st, e.tm.FreshVar("before", 0))
+}
+
+func inTimeSub(e *Engine, st *State, fn *ssa.Function, args []Value, site ssa.Instruction) []Outcome {
+	if a, b, ok := timeTerms(args); ok {
+		return one(st, e.tm.Sub(a, b))
+	}
+	return one(st, e.tm.FreshVar("sub", 64))
 }
 
 func inTimeSince(e *Engine, st *State, fn *ssa.Function, args []Value, site ssa.Instruction) []Outcome {
